@@ -102,10 +102,14 @@ pub fn lit(s: &Sc) -> String {
     }
     Sc::R(n, d) => format!("{}/{}", n, d),
     Sc::C(re, im) => {
+      // `-a+bi` parses as -(a+bi): a negative real part is written through the negation of both parts
       let (re, im) = (f64::from_bits(*re), f64::from_bits(*im));
-      let r = f64_plain(re).unwrap_or("0.0".into());
-      let i = f64_plain(im.abs()).unwrap_or("0.0".into());
-      format!("{}{}{}i", r, if im.is_sign_negative() { "-" } else { "+" }, i)
+      if re.is_sign_negative() && re != 0.0 {
+        let (a, b) = (-re, -im);
+        format!("-{}{}{}i", f64_plain(a).unwrap_or("0.0".into()), if b.is_sign_negative() && b != 0.0 { "-" } else { "+" }, f64_plain(b.abs()).unwrap_or("0.0".into()))
+      } else {
+        format!("{}{}{}i", f64_plain(re.abs()).unwrap_or("0.0".into()), if im.is_sign_negative() && im != 0.0 { "-" } else { "+" }, f64_plain(im.abs()).unwrap_or("0.0".into()))
+      }
     }
     Sc::Bool(b) => format!("{}", b),
     Sc::Str(s) => format!("\"{}\"", s),
